@@ -49,7 +49,11 @@ RULE = ("a case is one schema-expressible scenario + planning-problem set (JSON 
         "removals, translate_rotate, convert_to_2d, deepcopy / pickle / network copy), what the writer object is (facade / "
         "XMLFileWriter, author / tags / location overrides, precision spec / default / 0 / 15 / 20, filename None, check_validity) and "
         "what it did before (a full write, write_scenario_to_file, a write failing at the end or half-way, a skipped write, another "
-        "writer or a protobuf write in between), and which reader entry point reads the file back.")
+        "writer or a protobuf write in between), and which reader entry point reads the file back. Interval-valued orientations "
+        "(goal states, uncertain obstacle / trajectory states) are also drawn almost a full turn long (c03_gen.near_full_circle: "
+        "+-pi cut off after more decimals than the writer keeps, length 2 pi - k*10**-precision from any start, bounds on the "
+        "writer's grid, a bound with an exponent-form repr beside zero), at every writer precision in every run; the reader's "
+        "verdict on the written file decides.")
 ASSUMPTIONS = [
     "schema-expressible (the property's own restriction) is what harness/c03_gen.py documents: enum members whose value the XSD "
     "lists, initial states at time 0 with the required elements, interval goal states, a prediction for every dynamic/phantom "
@@ -91,7 +95,10 @@ REQUIRED_BUCKETS = ["doc/valid", "doc/reader-ok", "num/exponent-repr-small", "nu
                     "writer/after-skipped-write", "writer/decoy-between", "writer/protobuf-between", "writer/check_validity=True",
                     "writer/filename-none", "entry/reader-lanelet-assignment", "entry/reader-network-only", "entry/check_validity",
                     "num/z-zero-at-some-vertices", "num/z-zero-at-all-vertices", "num/z-nowhere-zero", "num/z-negative-zero",
-                    "num/state-value-zero", "dims/table-checked", "outside/history-left-the-quantifier", "outside/after-network-copy"]
+                    "num/state-value-zero", "dims/table-checked", "outside/history-left-the-quantifier", "outside/after-network-copy",
+                    # interval orientations whose length is within 4 units of the writer's last decimal of a full turn
+                    "ori/near-full-circle-goal", "ori/near-full-circle-state", "ori/near-full-circle-read-back"]
+REQUIRED_BUCKETS += [f"ori/near-full-circle/precision-{_p}" for _p in range(1, 13)]
 WORKERS = {"quick": 1, "thorough": 8}
 # translator tie of the WRITER: Gen.SrcC03 (regenerated from the working tree on every run by harness/translate/src_c03.py)
 # against the regenerated XSD (T03A, table checks) and the hand models XmlW.*Kids (T03, for all environments)
@@ -911,6 +918,89 @@ def write_doc(ctx, spec):
     return "ok", (path, sc, pps, eff_loc, eff_tags, meta, eff_prec, tags_seen)
 
 
+def orientation_intervals(sc, pps):
+    """(where, start, end) of every interval-valued orientation of the objects handed to the writer (input data)."""
+    out = []
+
+    def see(where, st):
+        o = getattr(st, "orientation", None) if st is not None else None
+        if o is not None and hasattr(o, "start") and hasattr(o, "end"):
+            out.append((where, float(o.start), float(o.end)))
+    for pp in pps.planning_problem_dict.values():
+        see("state", pp.initial_state)
+        for st in pp.goal.state_list:
+            see("goal", st)
+    for ob in sc.obstacles:
+        see("state", getattr(ob, "initial_state", None))
+        traj = getattr(getattr(ob, "prediction", None), "trajectory", None)
+        for st in (traj.state_list if traj is not None else []):
+            see("state", st)
+    return out
+
+
+def near_full_tags(ctx, sc, pps, eff_prec):
+    """buckets of the dimension 'orientation interval almost a full turn long' (measured in units of the writer's last decimal)"""
+    hit = False
+    for where, a, b in orientation_intervals(sc, pps):
+        if 0 < 2 * math.pi - (b - a) <= 4 * 10.0 ** -min(eff_prec, 15):
+            ctx.tag(f"ori/near-full-circle-{where}")
+            if 1 <= eff_prec <= 12:
+                ctx.tag(f"ori/near-full-circle/precision-{eff_prec}")
+            hit = True
+    return hit
+
+
+def overlong_orientations(root):
+    """(intervalStart text, intervalEnd text) of the <orientation> intervals of the file that are not shorter than a full turn"""
+    out = []
+    for e in root.iter("orientation"):
+        lo, hi = e.find("intervalStart"), e.find("intervalEnd")
+        if lo is not None and hi is not None:
+            try:
+                if float(hi.text) - float(lo.text) >= 2 * math.pi:
+                    out.append((lo.text, hi.text))
+            except (TypeError, ValueError):
+                pass
+    return out
+
+
+def _cut_or_rounded(text, x, prec):
+    """how `text` relates to the given bound x: 'cut' = the digits of repr(x) cut off after prec decimals (never farther from zero
+    than x), 'exp-rounded-out' = repr(x) is in exponent form and text is x rounded to prec decimals, AWAY from zero, else None"""
+    from fractions import Fraction
+    try:
+        t = Fraction(text.rstrip(".") if text.rstrip(".") not in ("", "-") else "0")
+    except (ValueError, ZeroDivisionError):
+        return None
+    X, u = Fraction(x), Fraction(1, 10 ** prec)
+    if "e" in repr(float(x)):
+        if abs(t - X) <= u / 2 and abs(t) > abs(X):
+            return "exp-rounded-out"
+        return "cut" if abs(t - X) <= u / 2 else None
+    X = Fraction(repr(float(x)))          # the digits of the shortest repr are what is cut off
+    return "cut" if (abs(t) <= abs(X) and abs(X) - abs(t) < u and (t == 0 or (t > 0) == (X > 0))) else None
+
+
+def exponent_bound_overlong(root, sc, pps, eff_prec):
+    """True iff every over-long <orientation> interval of the file is an input interval (shorter than a full turn) one of whose
+    bounds has an exponent-form repr and was ROUNDED away from zero while the other bound is written as given / cut off: the
+    known rounding of float_to_str's exponent branch (known-findings.txt), not any other way of lengthening an interval."""
+    over = overlong_orientations(root)
+    if not over:
+        return False
+    given = [(a, b) for _, a, b in orientation_intervals(sc, pps) if b - a < 2 * math.pi]
+    for lo, hi in over:
+        ok = False
+        for a, b in given:
+            ka, kb = _cut_or_rounded(lo, a, eff_prec), _cut_or_rounded(hi, b, eff_prec)
+            if ka and kb and "exp-rounded-out" in (ka, kb):
+                ok = True
+                break
+        if not ok:
+            return False
+    return True
+
+
 def run_doc(ctx, spec, mutants=8, correspond=True):
     from lxml import etree
     case = {"kind": "doc", "spec": spec}
@@ -931,6 +1021,7 @@ def run_doc(ctx, spec, mutants=8, correspond=True):
         return
     path, sc, pps, loc, tags, meta, eff_prec, hist_tags = payload
     V = spec.get("var") or {}
+    near_full = near_full_tags(ctx, sc, pps, eff_prec)
     doc = etree.parse(path)
     root = doc.getroot()
     # ---- oracle 1: the shipped XSD (lxml)
@@ -984,6 +1075,8 @@ def run_doc(ctx, spec, mutants=8, correspond=True):
         else:
             with_timeout(20, lambda: CommonRoadFileReader(path).open())
         ctx.tag("doc/reader-ok")
+        if near_full and how != 2:
+            ctx.tag("ori/near-full-circle-read-back")
     except _Timeout:
         ctx.fail("C03/reader/does-not-return", "CommonRoadFileReader.open() did not return within 20 s on the written file", case)
     except Exception as e:  # noqa
@@ -993,8 +1086,10 @@ def run_doc(ctx, spec, mutants=8, correspond=True):
             try:
                 with_timeout(20, lambda: CommonRoadFileReader(path).open())
                 key = f"C03/reader/lanelet_assignment/{_reader_function(e)}"
-            except Exception:  # noqa
-                pass
+            except Exception as e2:  # noqa  -- open() rejects the file as well: that failure is the finding
+                e, entry, key = e2, "open()", f"C03/reader/raises-{err_class(e2)}"
+        if isinstance(e, AssertionError) and how != 2 and exponent_bound_overlong(root, sc, pps, eff_prec):
+            key = "C03/reader/raises-assert/orientation-interval-exponent-bound-rounded-outward"
         ctx.fail(key, f"CommonRoadFileReader ({entry}) rejects the written file: {type(e).__name__}: {str(e)[:200]}", case)
     # ---- oracle 4: the writer's own validity check agrees with the shipped XSD (on the file and on a broken copy)
     if V and V.get("hseed", 0) % 4 == 0:
@@ -1169,6 +1264,7 @@ def run(ctx, docs=260, numbers=4000, mutants=8):
         if i < 12:
             spec["precision"] = i + 1          # every precision in every run
             spec["var"]["writer"]["precision"] = "spec"
+            c03_gen.widen_orientations(r, spec, force=True)      # ... with orientation intervals almost a full turn long
         elif i < 12 + len(c03_gen.Z_PROFILES):
             spec["var"]["lanelet3d"] = c03_gen.Z_PROFILES[i - 12]      # every elevation profile in every run
             spec["var"]["hist"] = [h for h in spec["var"]["hist"] if h != "convert2d"]
@@ -1185,8 +1281,13 @@ def search(ctx):
     r = ctx.rng
     for p in sorted(glob.glob(os.path.join(CORPUS_DIR, "C03", "*.json"))):
         run_case(ctx, json.load(open(p)))
-    for _ in range(ctx.n(40)):
-        run_doc(ctx, c03_gen.gen_spec(r, REPO), correspond=False)
+    for i in range(ctx.n(40)):
+        spec = c03_gen.gen_spec(r, REPO)
+        if i < 12:
+            spec["precision"] = i + 1
+            spec["var"]["writer"]["precision"] = "spec"
+            c03_gen.widen_orientations(r, spec, force=True)
+        run_doc(ctx, spec, correspond=False)
     for _ in range(ctx.n(500)):
         run_number(ctx, {"kind": "num", "x": gen_number(r), "p": r.randint(0, 12)})
     for b in ("doc/valid", "doc/reader-ok"):
